@@ -249,6 +249,13 @@ def hand_new_pkgs():
     e = hand_struct("Echo", [hand_field("name", "string")])
     a = hand_struct("Meta", [hand_embed(e), hand_field("id")])
     out.append(build_new_pkg([a, e], ["-getset"], extra_feats=["hand-embedderFirst"]))
+    # embedding chain of three whose middle type has no accessor of its own (its Getter/Setter only embed interfaces):
+    # the reload after the middle type is what lets the last type see FrameGetter
+    e = hand_struct("Echo", [hand_field("id"), hand_field("name", "string")])
+    mid = hand_struct("Frame", [hand_embed(e), hand_field("Source", "string")])
+    top = hand_struct("Omega", [hand_embed(mid), hand_field("total")])
+    tag = hand_struct("Zeta", [hand_field("label", "string")])
+    out.append(build_new_pkg([e, mid, top, tag], ["-getset"], extra_feats=["hand-chain3"]))
     return out
 
 
@@ -437,9 +444,14 @@ def gen_rest_pkg(rng, force=None):
              ("Put", "/users/{id}", "id int, user *User", "(*User, *http.Response, error)"),
              ("Delete", "/users/{id}", "id int", "(*http.Response, error)")]
     bodies = {}
-    for nm in names:
+    hdr = 0
+    for k, nm in enumerate(names):
         out.append("// %s talks to a service" % nm)
         out.append("type %s interface {" % nm)
+        # interface-level headers directive: must stay with its own client (earlier clients first, so that a leak would show)
+        if (force or {}).get("headers", rng.random() < (0.7 if k == 0 else 0.3)):
+            hdr += 1
+            out.append("\t//shoot: headers={X-Tenant-%d:%d},{Accept:text/x%d}" % (k, 100 + k, k))
         out.append("\tshoot.RestClient[%s]\n" % nm)
         ms = list(verbs)
         rng.shuffle(ms)
@@ -453,6 +465,8 @@ def gen_rest_pkg(rng, force=None):
     if star:
         src = src.replace("package rc\n", "package rc\n\n//go:generate shoot rest -type=*\n", 1)
     feats = {"rest": 1, "types-%d" % n: 1}
+    if hdr:
+        feats["rest-headers-directive"] = 1
     return {"cmd": "rest", "flags": [], "files": {"t.go": src}, "cwd": ".", "gofile": "t.go", "types": names,
             "all_types": names, "setup": [], "model": simple_model(bodies), "feats": feats, "star": star, "bodies": bodies}
 
